@@ -696,7 +696,14 @@ pub fn gen_c20(prop: &str, tier: Tier, rng: &mut Rng, seed: u64, run: u64) -> Pl
                         let t = st.next(rng);
                         // half of the readings only become current inside the inner update()
                         let code = if rng.chance(0.5) { "ENCP" } else { "ENC" };
-                        plan.push(code, &[d as i64, t, fb(rng.moderate_f32()), fb(rng.moderate_f32()), fb(rng.moderate_f32())]);
+                        let (p, v, a) = (rng.moderate_f32(), rng.moderate_f32(), rng.moderate_f32());
+                        if rng.chance(0.12) {
+                            // the very same datum also reaches the link from the other side (a second
+                            // encoder on the shaft, a seeded starting pose): the wrapper must still
+                            // record its own reading
+                            plan.push("SS", &[feed as i64, t, fb(p), fb(v), fb(a)]);
+                        }
+                        plan.push(code, &[d as i64, t, fb(p), fb(v), fb(a)]);
                     }
                     if rng.chance(fault * 0.5) {
                         plan.push("ENCUERR", &[d as i64, rng.range(1, 3)]);
